@@ -116,6 +116,43 @@ def run(tier: str, seed: int) -> int:
     run_.exhaustive = True
     run_.assumptions = ["fft conventions (C04)", "numpy cos for the closed-form derivatives", "tolerance 1e-10 relative"]
     shutil.rmtree(work, ignore_errors=True)
+    # ---- large grids, high orders: the symbol (i w k_d)^m of the specification (Symbols.DerivativeTerms, checked by TLC for k <= 16 where
+    # k^6 fits its 32-bit integers) evaluated for k up to 64 in floating point: single modes and a random trigonometric polynomial
+    for D, N in ((1, 128), (1, 81), (2, 80)):
+        L = 2.5
+        omega = 2 * np.pi / L
+        kax = np.fft.fftfreq(N, 1 / N)
+        for m in range(1, 7):
+            for rep in range(3):
+                kappa = [int(rng.integers(max(1, N // 4), (N - 1) // 2 + 1)) * int(rng.choice([-1, 1])) for _ in range(D)]
+                if rep == 0:
+                    kappa = [(N - 1) // 2] * D
+                grid = np.stack(np.meshgrid(*([np.arange(N) * (L / N)] * D), indexing="ij"))
+                phase = omega * sum(kappa[d] * grid[d] for d in range(D)) + 0.3
+                u = (np.cos(phase) + 0.5 * np.cos(omega * 3 * grid[0]))[None]
+                got = np.asarray(ex.derivative(jnp.asarray(u), L, order=m)).reshape((D,) + (N,) * D)
+                run_.case(("derivative-large", D, N, m, tuple(kappa)))
+                for d in range(D):
+                    # d^m/dx^m cos(theta) = (w k)^m cos(theta + m pi / 2)
+                    want = (omega * kappa[d]) ** m * np.cos(phase + m * np.pi / 2) + (0.5 * (omega * 3) ** m * np.cos(omega * 3 * grid[0] + m * np.pi / 2) if d == 0 else 0.0)
+                    sc = (omega * max(abs(k) for k in kappa)) ** m
+                    if maxabs(got[d] - want) > 1e-9 * sc:
+                        run_.violation({"kind": "derivative-analytic", "D": D, "N": N, "order": m, "what": "large grid"},
+                                       {"kappa": kappa, "axis": d, "err_rel": maxabs(got[d] - want) / sc})
+                        break
+    # ---- default (float32) session: the same public calls on the same inputs in a float32 child process
+    from .. import xsession as _xs
+    import numpy as _np
+    _rng = _np.random.default_rng(seed + 77)
+    _cases = []
+    for _D, _N in ((1, 16), (2, 8), (3, 6), (1, 15), (2, 9)):
+        _u = _rng.standard_normal((2,) + (_N,) * _D)
+        for _o in (1, 2, 3, 4):
+            _cases.append(dict(id=f"derivative/{_D}/{_N}/{_o}", name="derivative", args=[_u, 3.0], kw=dict(order=_o)))
+        for _o in (2, 4):
+            _cases.append(dict(id=f"poisson/{_D}/{_N}/{_o}", name="poisson", args=[_u], kw=dict(L=3.0, order=_o)))
+            _cases.append(dict(id=f"laplace/{_D}/{_N}/{_o}", name="laplace_operator", args=[], kw=dict(D=_D, L=3.0, N=_N, order=_o)))
+    _xs.compare(run_, PID, _cases, os.path.join(tlc.SCRATCH, f"c05xs.{os.getpid()}"))
     # the composed machine (spec/Session.tla): multi-step API sessions generated by TLC -simulate, replayed call by call; this check
     # reports the mismatches of the operations it owns (derive)
     if True:
